@@ -142,3 +142,46 @@ func vfhC03ShapesRewrite() {
 	vfReach("valid")
 	vfReach("end")
 }
+
+func init() {
+	vfHarnesses["C03_hole_clusters"] = vfhC03HoleClusters
+	vfHarnesses["C10_hole_clusters"] = vfhC03HoleClusters
+}
+
+// Several separate clusters of touching holes: one of them (three holes
+// touching pairwise at three distinct points) cuts an island out of the
+// interior, the others (two holes touching once) are harmless. The verdict
+// must not depend on the order of the holes or on the order in which the
+// ring-adjacency graph's maps are iterated (schedules after the mark).
+func vfhC03HoleClusters() {
+	shell := "(0 0,22 0,22 5,0 5,0 0)"
+	cyc := []string{"(2 1,4 1,4 2,2 2,2 1)", "(2 2,3 3,2 4,1 3,2 2)", "(4 2,5 3,4 4,3 3,4 2)"}
+	pairs := []string{"(10 1,12 1,11 2,10 1)", "(11 2,12 3,10 3,11 2)", "(16 1,18 1,17 2,16 1)", "(17 2,18 3,16 3,17 2)"}
+	nCyc := vfInt("cycle-holes", 2, 3) // 2: no cycle, the polygon is valid
+	var holes []string
+	switch vfInt("order", 0, 2) {
+	case 0:
+		holes = append(append(holes, cyc[:nCyc]...), pairs...)
+	case 1:
+		holes = append(append(holes, pairs...), cyc[:nCyc]...)
+	default:
+		holes = append(holes, pairs[0], cyc[0], pairs[2], pairs[1])
+		holes = append(holes, cyc[1:nCyc]...)
+		holes = append(holes, pairs[3])
+	}
+	wkt := "POLYGON(" + shell
+	for _, h := range holes {
+		wkt += "," + h
+	}
+	wkt += ")"
+	g, err := UnmarshalWKT(wkt, NoValidate{})
+	vfAssert(err == nil, "the text is well formed")
+	vfMapOrderMark()
+	if nCyc == 3 {
+		vfAssert(g.Validate() != nil, "holes that cut an island out of the interior make the polygon invalid, whatever the hole and map order")
+		vfReach("disconnected")
+	} else {
+		vfAssert(g.Validate() == nil, "holes that only touch in chains keep the polygon valid")
+		vfReach("connected")
+	}
+}
